@@ -99,41 +99,71 @@ func iterUpdateCallback(p *Program) string {
 	if p.Func(name) != nil {
 		return name
 	}
-	fn := p.Func(fnIterUpd)
-	if fn == nil {
+	root := p.Func(fnIterUpd)
+	if root == nil {
 		return name
 	}
-	for _, b := range fn.Blocks {
-		for _, in := range b.Instrs {
-			call, ok := in.(*ssa.Call)
-			if !ok {
-				continue
-			}
-			callee := call.Common().StaticCallee()
-			if callee == nil || QualName(callee) != "lmdbenv/strategy.iterBoth" || len(call.Common().Args) < 4 {
-				continue
-			}
-			v := call.Common().Args[3]
-			if ct, ok := v.(*ssa.ChangeType); ok {
-				v = ct.X
-			}
-			mc, ok := v.(*ssa.MakeClosure)
-			if !ok {
-				continue
-			}
-			f, ok := mc.Fn.(*ssa.Function)
-			if !ok {
-				continue
-			}
-			if strings.HasSuffix(f.Name(), "$bound") {
-				if obj, ok := f.Object().(*types.Func); ok {
-					if m := p.SSA.FuncValue(obj); m != nil {
-						return QualName(m)
+	// the iterBoth call may have moved into a helper split off IterUpdate, or
+	// into a closure IterUpdate hands to such a helper
+	seen := map[*ssa.Function]bool{}
+	var find func(fn *ssa.Function, d int) string
+	find = func(fn *ssa.Function, d int) string {
+		if fn == nil || seen[fn] || d > 4 {
+			return ""
+		}
+		seen[fn] = true
+		for _, b := range fn.Blocks {
+			for _, in := range b.Instrs {
+				switch x := in.(type) {
+				case *ssa.MakeClosure:
+					if cf, ok := x.Fn.(*ssa.Function); ok && cf.Parent() == fn && !strings.HasSuffix(cf.Name(), "$bound") {
+						if r := find(cf, d+1); r != "" {
+							return r
+						}
 					}
+				case *ssa.Call:
+					callee := x.Common().StaticCallee()
+					if callee == nil {
+						continue
+					}
+					if QualName(callee) != "lmdbenv/strategy.iterBoth" {
+						if unknownHelper(callee, 0) {
+							if r := find(callee, d+1); r != "" {
+								return r
+							}
+						}
+						continue
+					}
+					if len(x.Common().Args) < 4 {
+						continue
+					}
+					v := x.Common().Args[3]
+					if ct, ok := v.(*ssa.ChangeType); ok {
+						v = ct.X
+					}
+					mc, ok := v.(*ssa.MakeClosure)
+					if !ok {
+						continue
+					}
+					f, ok := mc.Fn.(*ssa.Function)
+					if !ok {
+						continue
+					}
+					if strings.HasSuffix(f.Name(), "$bound") {
+						if obj, ok := f.Object().(*types.Func); ok {
+							if m := p.SSA.FuncValue(obj); m != nil {
+								return QualName(m)
+							}
+						}
+					}
+					return QualName(f)
 				}
 			}
-			return QualName(f)
 		}
+		return ""
+	}
+	if r := find(root, 0); r != "" {
+		return r
 	}
 	return name
 }
